@@ -432,7 +432,7 @@ def pick_repl(v: View, rng: random.Random, rect, rkind: str, aux: dict, profile:
     old = v.text_of(rect)
     L = v.lines
     ind = L[rect[0]][:_indent_of(L[rect[0]])]
-    clean = profile == 'clean'
+    clean = profile in CLEAN_PROFILES
     r = rng.random()
     if rkind == 'node':
         n = aux['node']
@@ -513,7 +513,12 @@ def pick_repl(v: View, rng: random.Random, rect, rkind: str, aux: dict, profile:
     return 'block', rng.choice(BLOCKS).format(i=ind)
 
 
+CLEAN_PROFILES = ('clean', 'inline')
+
 PROFILES = {
+    # 'inline': clean-class edits only inside statements (node-boundary replacement by the same category, token
+    # mutation, identity), used on INLINE_PROGRAMS where almost every statement is an inline one after multi-byte text
+    'inline': {'node': 6, 'tok': 4},
     # rect kind weights; 'clean' = classes that are quiet on the pinned tree (regressions there must not hide)
     'clean': {'node': 5, 'stmt': 4, 'newline-stmt': 4, 'tok': 3},
     'wild': {'node': 2, 'stmt': 2, 'newline-stmt': 1, 'newline-stmt0': 1, 'tok': 3, 'tokrange': 3, 'intok': 3, 'span': 3, 'lines': 3,
@@ -727,8 +732,8 @@ def run_history(rec: RawRecorder, tid: int, seed: int, src: str, nsteps: int, pr
                 break
             else:
                 r = rng.random()
-                if profile == 'clean' or mode != 'exec':
-                    plan = plan_put_src(v, rng, 'clean' if profile == 'clean' else 'wild')
+                if profile in CLEAN_PROFILES or mode != 'exec':
+                    plan = plan_put_src(v, rng, profile if profile in CLEAN_PROFILES else 'wild')
                 elif r < 0.72:
                     plan = plan_put_src(v, rng, profile)
                 elif r < 0.88:
@@ -747,10 +752,10 @@ def run_history(rec: RawRecorder, tid: int, seed: int, src: str, nsteps: int, pr
                                 'path': [[f, -1 if i is None else i] for f, i in _path_of(v.tree, n)]}
                 if plan and plan['call'] == 'put_src' and rng.random() < 0.3 and v.exprs:
                     # put_src may be called on any node of the tree: `self` must not matter
-                    n = rng.choice(v.exprs + (v.stmts if profile != 'clean' else []))
+                    n = rng.choice(v.exprs + (v.stmts if profile not in CLEAN_PROFILES else []))
                     plan['via'] = [[f, -1 if i is None else i] for f, i in _path_of(v.tree, n)]
                     plan['self'] = 'stmt' if isinstance(n, (ast.stmt, ast.ExceptHandler, ast.match_case)) else 'expr'
-                if plan and plan['call'] in ('put_src', 'put_none') and profile != 'clean' and rng.random() < 0.15:
+                if plan and plan['call'] in ('put_src', 'put_none') and profile not in CLEAN_PROFILES and rng.random() < 0.15:
                     plan['quad'] = requad(v, rng, plan['rect'])
             if plan is None:
                 continue
@@ -846,3 +851,71 @@ EXTRA_PROGRAMS = [
     'class K:\n    def m(s):\n        if s.a: return 1\n        elif s.b: return 2\n        elif s.c: return 3\n        elif s.d: return 4\n',
     'x = 0\nif x == 1:\n    y = 1\nelif x == 2:\n    y = 2\nelif x == 3:\n    y = 3\nelif x == 4:\n    y = 4',
 ]
+
+
+
+# ----------------------------------------------------------------------------------------------------------------------
+# Inline statements after multi-byte text, holding multi-line nodes.  fst_raw corrects the byte-vs-character column of
+# the first re-parsed line separately for nodes that start / end there (first_line_col_delta); this family makes every
+# ordinary edit inside a statement exercise that path: the statement is not on line 0, not at column 0, has multi-byte
+# characters before it on its own line (`"é"; x = ...`, `if é: x = ...`, `class Ç: x = ...`, `é = 1; x = ...`), and
+# contains nodes that start on that line and end on a later one (parenthesised / bracketed displays, calls).
+
+def _inline_programs():
+    bodies = [  # {p} = padding that aligns continuation lines (any indentation is fine inside brackets)
+        'x = (a,\n{p}b, c)', 'y = f(a,\n{p}b=2, *c)', 'z = [a, [b,\n{p}c], d]', 'w = {{k: v,\n{p}**d}}',
+        't = h(a, (b,\n{p}c))(d,\n{p}e)', 'u = (a +\n{p}b * c)', 'v = g(a)[i,\n{p}j].k(\n{p}m)', 'r = [i for i in (a,\n{p}b)\n{p}if i]',
+        'return_ = not (a and\n{p}b)', 's = lam(lambda p, q=(1,\n{p}2): p)', 'o = {{a,\n{p}b}} | {{c}}', 'n: T = (a,\n{p}b)',
+        'm += f(a)(\n{p}b)', 'del l[a:\n{p}b], k[(c,\n{p}d)]', 'assert (a,\n{p}b), c', 'q(a, *(b,\n{p}c), **e)',
+    ]
+    heads = ['"\u00e9"; ', '\u00e9 = 1; ', 'if \u00e9: ', 'class \u00c7: ', 'while \u00f1\u00f6: ', 'with \u00e4 as \u00fc: ', '\u00df; \u03b1 = 2; ',
+             'for \u00e9 in \u4e2d\u6587: ', "'\u65e5\u672c'; ", 'try: \u00e9 = "\u00fc"; ']
+    progs = []
+    k = 0
+    for depth_pattern in ([0, 0, 1, 1, 2], [1, 2, 0, 1, 0], [0, 1, 2, 2, 1], [2, 1, 0, 0, 1]):
+        lines = ['first = 0']
+        cur = 0
+        for d in depth_pattern:
+            # open / close enough blocks to be at depth d
+            while cur < d:
+                lines.append('    ' * cur + ('def f%d():' % k if cur == 0 else 'class C%d:' % k))
+                lines.append('    ' * (cur + 1) + 'lead%d = %d' % (k, k))
+                cur += 1
+            cur = d
+            head = heads[k % len(heads)]
+            body = bodies[k % len(bodies)]
+            ind = '    ' * d
+            text = ind + head + body.format(p=ind + ' ' * (len(head) + 4))
+            lines += text.split('\n')
+            if head.startswith('try:'):
+                lines.append(ind + 'finally: pass')
+            k += 1
+        lines.append('last = 1')
+        progs.append('\n'.join(lines) + '\n')
+    # more rows so that every head meets several bodies
+    for shift in (3, 7, 11):
+        lines = ['first = 0', 'def g%d():' % shift, '    lead = 0']
+        for i in range(6):
+            head = heads[(i * 3 + shift) % len(heads)]
+            body = bodies[(i * 5 + shift) % len(bodies)]
+            ind = '    ' if i % 2 == 0 else ''
+            text = ind + head + body.format(p=ind + ' ' * (len(head) + 4))
+            if ind:
+                lines += text.split('\n')
+                if head.startswith('try:'):
+                    lines.append(ind + 'finally: pass')
+        for i in range(6):
+            head = heads[(i * 7 + shift + 1) % len(heads)]
+            body = bodies[(i * 3 + shift + 2) % len(bodies)]
+            text = head + body.format(p=' ' * (len(head) + 4))
+            lines += text.split('\n')
+            if head.startswith('try:'):
+                lines.append('finally: pass')
+        lines.append('last = 1')
+        progs.append('\n'.join(lines) + '\n')
+    for p in progs:
+        ast.parse(p)
+    return progs
+
+
+INLINE_PROGRAMS = _inline_programs()
